@@ -23,6 +23,7 @@ import Golib.Proof.C18Int64
 import Golib.Proof.C18Brute
 import Golib.Proof.C18KnapH
 import Golib.Proof.C18Knap64
+import Golib.Proof.C18Trans
 
 namespace Golib.C18
 
@@ -583,5 +584,64 @@ example : maximalCliques (fun a b : Nat => (a, b) ∈ [(0, 1), (1, 0), (1, 2), (
       [0, 1, 2, 3] = some [[0, 1, 2], [2, 3]] ∧
     maximalCliques (fun a b : Nat => (a, b) ∈ [(0, 1), (1, 0), (1, 2), (2, 1), (0, 2), (2, 0), (2, 3), (3, 2)])
       [3, 2, 0, 1] = some [[3, 2], [2, 0, 1]] := by decide
+
+
+/-! ### Regenerated tie (wave 9): `algz/dp.go` translated by `go2lean` on every run
+
+`Golib.Gen.Trans.C18.Knapsack` / `slicesPool_Get` / `slicesPool_Put` are regenerated from the tree under
+verification (`Golib/Gen/TransC18.lean`).  The variadic `tieBreaker ...func(old, new []T) bool` is the
+list parameter `List (Option (List T → List T → Bool))` (`none` = a nil function value); the buffer
+idiom `x = append(x[:0], ys...)` is translated by value under the syntactic ownership discipline stated
+in the generated header (the hand-written heap-level counterpart is `c18_knapsack_buffers`). -/
+
+/-- **Tie (Knapsack).** For every limit `maxWeight ≥ 0`, item list, weight and value function and
+variadic breaker list the regenerated definition returns exactly what the hand-written model
+`knapsackGo` (the subject of `c18_knapsack*`) returns, panics exactly where the model is `none`
+(an item of negative weight), and never runs out of fuel.  The breaker is element 0 of the list when
+there is one (`Trans.brOf`; `[]` and a nil first element: no breaker). -/
+theorem c18_trans_Knapsack {T : Type} [Inhabited T] (maxWeight : Int) (h0 : 0 ≤ maxWeight)
+    (items : List T) (wf vf : T → Int) (tb : List (Option (List T → List T → Bool))) :
+    Golib.Gen.Trans.C18.Knapsack maxWeight items wf vf tb
+      = Trans.ofOpt (knapsackGo (Trans.brOf tb) wf vf maxWeight items) :=
+  Trans.trans_knapsack maxWeight h0 items wf vf tb
+
+-- non-vacuity: the tie at a tie-breaking instance (breaker passed / nil passed / nothing passed) and
+-- at a negative weight (panic)
+example : Golib.Gen.Trans.C18.Knapsack 5 [(2, 3), (3, 4), (5, 7)] (fun x : Int × Int => x.1) (fun x => x.2)
+      [some fun _ _ => true] = .ok [(5, 7)] ∧
+    Golib.Gen.Trans.C18.Knapsack 5 [(2, 3), (3, 4), (5, 7)] (fun x : Int × Int => x.1) (fun x => x.2)
+      [none] = .ok [(2, 3), (3, 4)] ∧
+    Golib.Gen.Trans.C18.Knapsack 5 [(2, 3), (3, 4), (5, 7)] (fun x : Int × Int => x.1) (fun x => x.2)
+      [] = .ok [(2, 3), (3, 4)] ∧
+    Golib.Gen.Trans.C18.Knapsack 5 [(2, 3), (-1, 4)] (fun x : Int × Int => x.1) (fun x => x.2)
+      [] = .panic := by decide
+
+/-- The property clause restated on the regenerated definition: whatever `Knapsack` returns is a
+sub-selection within the limit — through the tie, every theorem about `knapsackGo` speaks about the
+current source text. -/
+theorem c18_trans_Knapsack_some {T : Type} [Inhabited T] (maxWeight : Int) (h0 : 0 ≤ maxWeight)
+    (items : List T) (wf vf : T → Int) (tb : List (Option (List T → List T → Bool))) (r : List T)
+    (h : Golib.Gen.Trans.C18.Knapsack maxWeight items wf vf tb = .ok r) :
+    knapsackGo (Trans.brOf tb) wf vf maxWeight items = some r := by
+  rw [c18_trans_Knapsack maxWeight h0] at h
+  cases hk : knapsackGo (Trans.brOf tb) wf vf maxWeight items with
+  | none => rw [hk] at h; cases h
+  | some a => rw [hk] at h; cases h; rfl
+
+/-- **Tie (slicesPool.Put).** The pool is the list of recycled slices; `Put` appends at the end. -/
+theorem c18_trans_slicesPool_Put {T : Type} [Inhabited T] (p : Golib.Gen.Trans.C18.slicesPool T) (s : List T) :
+    Golib.Gen.Trans.C18.slicesPool_Put p s = .ok { entries := p.entries ++ [s] } :=
+  Trans.trans_pool_put p s
+
+/-- **Tie (slicesPool.Get).** `Get` never panics; it hands out an EMPTY slice and removes the last
+entry (when there is one) — the value-level reading of `poolGet` (`st.pool.dropLast`, `len := 0`). -/
+theorem c18_trans_slicesPool_Get {T : Type} [Inhabited T] (p : Golib.Gen.Trans.C18.slicesPool T) (c : Int) :
+    Golib.Gen.Trans.C18.slicesPool_Get p c = .ok ([], { entries := p.entries.dropLast }) :=
+  Trans.trans_pool_get p c
+
+example : Golib.Gen.Trans.C18.slicesPool_Get ⟨[[1, 2], [3]]⟩ 4 = .ok (([] : List Nat), ⟨[[1, 2]]⟩) ∧
+    Golib.Gen.Trans.C18.slicesPool_Get ⟨[]⟩ 4 = .ok (([] : List Nat), ⟨[]⟩) ∧
+    Golib.Gen.Trans.C18.slicesPool_Put ⟨[[1, 2]]⟩ [3] = .ok (⟨[[1, 2], [3]]⟩ : Golib.Gen.Trans.C18.slicesPool Nat) := by
+  decide
 
 end Golib.C18
